@@ -472,9 +472,17 @@ func (sw *sweeper) reads(a Analysis) {
 
 // accessPath renders how a container value is reached: e.g. "param:dst.ConstantMap", "param:p.conf.CompileOptions", "fresh".
 func (sw *sweeper) accessPath(v ssa.Value, fn *ssa.Function, depth int) string {
-	if depth > 12 {
+	if depth == 0 {
+		sw.pathVisiting = map[ssa.Value]bool{}
+	}
+	if depth > 24 {
 		return "?"
 	}
+	if sw.pathVisiting[v] {
+		return "cycle" // a value reached again through a phi/append cycle contributes nothing new
+	}
+	sw.pathVisiting[v] = true
+	defer delete(sw.pathVisiting, v)
 	switch x := v.(type) {
 	case *ssa.Parameter:
 		return "param:" + x.Name()
@@ -524,6 +532,10 @@ func (sw *sweeper) accessPath(v ssa.Value, fn *ssa.Function, depth int) string {
 			return sw.accessPath(x.Common().Args[0], fn, depth+1)
 		}
 		if sc := x.Common().StaticCallee(); sc != nil {
+			switch sc.String() {
+			case "strings.Split", "strings.Fields", "strings.SplitN":
+				return "fresh" // the standard library returns a newly allocated slice
+			}
 			return "result:" + sw.key(sc)
 		}
 		return "result:dynamic"
@@ -578,7 +590,7 @@ func (sw *sweeper) configWrites(a Analysis) {
 			path := sw.accessPath(container, fn, 0)
 			ok := true
 			for _, alt := range strings.Split(path, "|") {
-				if alt == "fresh" || alt == "nil" {
+				if alt == "fresh" || alt == "nil" || alt == "cycle" {
 					continue
 				}
 				m := false
@@ -606,6 +618,18 @@ func (sw *sweeper) configWrites(a Analysis) {
 					if fa, ok := x.Addr.(*ssa.FieldAddr); ok {
 						if pt, ok := fa.X.Type().Underlying().(*types.Pointer); ok && types.Identical(pt.Elem(), cfgNamed.Type()) {
 							site("config-field-store", fa.X, x.Pos())
+							// the container stored into a Config must be fresh or the one already held by that field
+							own := sw.accessPath(fa, fn, 0)
+							vp := sw.accessPath(x.Val, fn, 0)
+							okv := true
+							for _, alt := range strings.Split(vp, "|") {
+								if alt != "fresh" && alt != "nil" && alt != "cycle" && alt != own {
+									okv = false
+								}
+							}
+							n++
+							sw.add(tag+"/"+k+"/config-field-value:"+sw.stmtOf(fn, x.Pos(), "store"), "configwrites",
+								"a container stored into a Config is freshly allocated (or the field's own, grown by append): configs never share containers", okv, "stores "+vp+" into "+own, x.Pos())
 						}
 					}
 					if ia, ok := x.Addr.(*ssa.IndexAddr); ok {
